@@ -185,6 +185,27 @@ fn check_c03(tier: Tier, seed: u64, get: &dyn Fn(&str) -> Option<String>, has: &
     )
 }
 
+/// C19 is served by two engines: the strict packing layer of the line-buffer model on sequential
+/// histories (E2) and a per-datagram necessity rule on buffered socket sinks shared by 1..4
+/// simulated emitter threads (E5).
+fn check_c19(tier: Tier, seed: u64, get: &dyn Fn(&str) -> Option<String>, has: &dyn Fn(&str) -> bool) -> i32 {
+    let scale: f64 = get("--scale").and_then(|s| s.parse().ok()).unwrap_or(1.0);
+    let scale = get("--runs").and_then(|s| s.parse::<f64>().ok()).map(|r| r / 500_000.0).unwrap_or(scale);
+    let jobs = get("--jobs").and_then(|s| s.parse().ok()).unwrap_or_else(|| std::thread::available_parallelism().map(|n| n.get()).unwrap_or(4));
+    check_multi(
+        "C19",
+        tier,
+        seed,
+        jobs,
+        &[("linebuf", 500_000, 40_000_000, 25), ("sockets", 150_000, 10_000_000, 0)],
+        "linebuf: sequential histories of emit/flush/drop judged by the strict layer of the reference model - which call each write happens in and how many lines it carries (see per_engine.linebuf.rule); sockets: buffered UDP/Unix sinks shared by 1..4 simulated emitter threads, every datagram that leaves during an emit must have been needed to make room for that emit's metric (see per_engine.sockets.rule); distinct non-trivial counts are summed",
+        serde_json::json!({}),
+        vec!["underlying writes are all-or-nothing (datagram semantics); sockets are stubs".to_string(), "sampling, not proof".to_string()],
+        !has("--no-evidence"),
+        scale,
+    )
+}
+
 /// C18 second opinion (thorough tier): the unhooked SingletonHolder under Miri's seeded scheduler,
 /// weak-memory emulation and data-race detector. Independent of the simulator's own tracker.
 fn miri_c18(args: &BatchArgs) -> (serde_json::Value, Option<String>, Option<String>) {
@@ -245,6 +266,9 @@ fn main() {
             }
             if prop == "C03" {
                 std::process::exit(check_c03(tier, seed, &get, &has));
+            }
+            if prop == "C19" {
+                std::process::exit(check_c19(tier, seed, &get, &has));
             }
             if prop == "C06" {
                 std::process::exit(check_c06(tier, seed, &get, &has));
@@ -333,6 +357,8 @@ fn main() {
                 ("queue/C09", selftest::<e3::E3>("C09", seeds, 16, DEFAULT_SEED)),
                 ("sockets/C12", selftest::<e5::E5>("C12", seeds, 16, DEFAULT_SEED)),
                 ("sockets/C14", selftest::<e5::E5>("C14", seeds, 16, DEFAULT_SEED)),
+                ("sockets/C19", selftest::<e5::E5>("C19", seeds, 16, DEFAULT_SEED)),
+                ("queue/C10", selftest::<e3::E3>("C10", seeds, 16, DEFAULT_SEED)),
                 ("holder/C18", selftest::<e6::E6>("C18", seeds, 16, DEFAULT_SEED)),
                 ("sinkfault/C03", selftest::<e1::E1>("C03", seeds, 16, DEFAULT_SEED)),
                 ("sharedclient/C03", selftest::<e8::E8>("C03", seeds, 16, DEFAULT_SEED)),
